@@ -38,10 +38,23 @@ META = {
 }
 
 
+_TRACED = False
+
+
 def setup(engine):
+    global _TRACED
     if engine == "chx":
         import srctools.vtf as vtf
+        from vf.stubs import binio
+        binio.selftest()
+        binio.enable_symbolic()
+        _TRACED = True
         vtf.BytesIO = _ListIO
+        vtf._HEADER = binio.ModelStruct(vtf._HEADER.format)
+        class _StructMod(binio.StructModule):
+            def unpack_from(self, fmt, buf, offset=0):
+                return binio.unpack(fmt, buf[offset:offset + binio.calcsize(fmt)])
+        vtf.struct = _StructMod()
 
 
 class _ListIO:
@@ -533,6 +546,37 @@ def h_mipmaps_w(wi: int, hi: int, vi: int, cube: bool, frames: int, depth: int) 
     raise Fail("reached")
 
 
+def h_header(ffi: int, lod: int, rflags: int, vi: int) -> None:
+    """Header and resource integers as solver variables: first frame index (16 bit), an integer resource value (32 bit) and
+    its flag byte survive save -> read exactly for every value; a second save is byte-identical."""
+    import srctools.vtf as vtf
+    from vf.props.c08 import pick
+    from vf.stubs import binio
+    minor = pick([3, 4, 5], vi)
+    assume(0 <= ffi <= 0xFFFF and 0 <= lod <= 0xFFFFFFFF and 0 <= rflags <= 0xFF)
+    v = vtf.VTF(4, 4, version=(7, minor), fmt=vtf.ImageFormats.RGBA8888, thumb_fmt=vtf.ImageFormats.NONE)
+    v.first_frame_index = ffi
+    v.resources[vtf.ResourceID.LOD_SETTINGS] = vtf.Resource(rflags | 0x02, lod)
+    f = binio.ModelBytesIO() if _TRACED else __import__("io").BytesIO()
+    v.save(f)
+    first = f.getvalue()
+    f.seek(0)
+    v2 = vtf.VTF.read(f)
+    v2.load()
+    check(v2.first_frame_index == ffi, "first frame index", v2.first_frame_index)
+    r = v2.resources.get(vtf.ResourceID.LOD_SETTINGS)
+    check(r is not None and r.data == lod, "integer resource value", None if r is None else r.data)
+    check(r.flags == (rflags | 0x02), "resource flag byte", r.flags)
+    g = binio.ModelBytesIO() if _TRACED else __import__("io").BytesIO()
+    v2.save(g)
+    check(g.getvalue() == first, "second save differs")
+
+
+def h_header_w(ffi: int, lod: int, rflags: int, vi: int) -> None:
+    h_header(ffi, lod, rflags, vi)
+    raise Fail("reached")
+
+
 def h_structure_w(wi: int, hi: int, frames: int, depth: int, vi: int, cube: bool, res: bool, fmt: str) -> None:
     h_structure(wi, hi, frames, depth, vi, cube, res, fmt)
     raise Fail("reached")
@@ -560,6 +604,10 @@ def obligations(tier):
             desc="compute_mipmaps over every frame / cubemap face (incl. the sphere map before 7.5) / depth slice: halved dimensions, average of parent",
             bound="sizes 1..8, frames/depth <= 2, cubemaps, versions 7.2-7.5 by index; concrete pixels"),
         Obl("mipmaps.witness", MOD, "h_mipmaps_w", budget_s=300, per_path_s=120, witness=True),
+        Obl("header", MOD, "h_header", budget_s=900, per_path_s=120,
+            desc="first frame index, an integer resource value and its flag byte as solver variables through save/read (versions 7.3-7.5)",
+            bound="all 16-bit / 32-bit / 8-bit values"),
+        Obl("header.witness", MOD, "h_header_w", budget_s=300, per_path_s=120, witness=True),
         Obl("structure.witness", MOD, "h_structure_w", slices=[{"fmt": "RGBA8888"}], budget_s=300, per_path_s=120, witness=True),
     ]
     return obls
